@@ -111,7 +111,7 @@ async def run_program(transport: Any, program: list[list[Any]], ops: list[OpReco
         ops.append(rec)
         try:
             if op[0] == "write":
-                await transport.write(bytes(op[1]), timeout=None)
+                await transport.write(bytes(op[1]), timeout=op[2] if len(op) > 2 else None)
                 rec.outcome = "ok"
             elif op[0] == "sleep":
                 await asyncio.sleep(op[1])
